@@ -183,3 +183,18 @@ def parse_ode_output(out):
             blocks.append(cur)
             cur = None
     return blocks
+
+
+def build_renorm_driver(proj, sanitize=True):
+    tmpl = (Path(__file__).resolve().parent / "driver_renorm.cpp.in").read_text()
+    drv = proj.path / "vt_renorm_driver.cpp"
+    drv.write_text(tmpl)
+    exe = proj.path / "vt_renorm_driver"
+    srcs = sorted(str(p) for p in (proj.path / "src").glob("*.cpp"))
+    flags = ["-std=c++14", "-O0", "-g", "-fno-omit-frame-pointer", "-Wno-everything"]
+    if sanitize:
+        flags += ["-fsanitize=address,undefined", "-fno-sanitize-recover=undefined"]
+    p = subprocess.run([CXX, *flags, f"-I{SHIM}", f"-I{proj.path / 'include'}", *srcs, str(drv), "-o", str(exe)], capture_output=True, text=True)
+    if p.returncode != 0:
+        raise BuildError(p.stderr[-3000:])
+    return exe
